@@ -5,6 +5,7 @@
   statement; the only value-dependent failure of the key is `str()` of an over-long int.
 -/
 import Pyab.Generated.Config
+import Pyab.Properties.EvaluatorPremise
 import Pyab.Spec.Run
 import Pyab.Proofs.RunGenerated
 import Pyab.Proofs.ChoiceTotal
